@@ -8,6 +8,9 @@ import Cte.Model.Check
 import Cte.Model.Purge
 import Cte.Model.Energy
 import Cte.Model.RadTable
+import Cte.Model.Bvh
+import Cte.Model.Box
+import Cte.Model.Ray
 open Cte
 
 def warnKindStr : WarnKind → String
@@ -136,6 +139,62 @@ def opClassify (req : J) : J :=
       | _ => J.null)))]
   | _ => J.obj [("error", J.str "no points")]
 
+def jnum? : J → Option Rat
+  | .num n m e => some (J.numVal n m e)
+  | _ => none
+
+def jnums (j : J) : List Rat :=
+  match j with
+  | .arr l => l.filterMap jnum?
+  | _ => []
+
+def box3Of (j : J) : Option Box3 :=
+  match jnums j with
+  | [a, b, c, d, e, f] => some { lo := ⟨a, b, c⟩, hi := ⟨d, e, f⟩ }
+  | _ => none
+
+def rayOf (j : J) : Option RayQ :=
+  match jnums j with
+  | [a, b, c, d, e, f] => some { o := ⟨a, b, c⟩, d := ⟨d, e, f⟩ }
+  | _ => none
+
+def v3Of (j : J) : Option V3 :=
+  match jnums j with
+  | [a, b, c] => some ⟨a, b, c⟩
+  | _ => none
+
+/-- op `bvh`: boxes as elements, leaf size, rays → accelerated and exhaustive answers of the model -/
+def opBvh (req : J) : J :=
+  let boxes := match req.get? "boxes" with | some (J.arr l) => l.filterMap box3Of | _ => []
+  let rays := match req.get? "rays" with | some (J.arr l) => l.filterMap rayOf | _ => []
+  let k := match req.get? "leaf" with | some (J.num false m 0) => m | _ => 30
+  let tree := Bvh.build boxOps k boxes
+  J.obj [("bvh", J.arr (rays.map (fun r => J.bool (Bvh.query boxOps r tree)))),
+         ("exhaustive", J.arr (rays.map (fun r => J.bool (boxes.any (fun b => b.hit r)))))]
+
+/-- op `raypoly`: polygon, inverse pose, rays → hit parameter or null, and the squared distance of the
+plane crossing to the outline (for the 1 mm exclusion zone) -/
+def opRayPoly (req : J) : J :=
+  let poly : List P2 := match req.get? "polygon" with
+    | some (J.arr l) => l.filterMap (fun p => match jnums p with | [a, b] => some ⟨a, b⟩ | _ => none)
+    | _ => []
+  let rays := match req.get? "rays" with | some (J.arr l) => l.filterMap rayOf | _ => []
+  let pose : Option Pose := match req.get? "inv_rot", req.get? "inv_tr" with
+    | some (J.arr [a, b, c]), some t =>
+      match v3Of a, v3Of b, v3Of c, v3Of t with
+      | some a, some b, some c, some t => some { r0 := a, r1 := b, r2 := c, t := t }
+      | _, _, _, _ => none
+    | _, _ => none
+  match pose with
+  | none => J.obj [("error", J.str "bad pose")]
+  | some inv =>
+    J.obj [("hits", J.arr (rays.map (fun r => match rayPolygon inv poly r with
+              | some h => jr h.t | none => J.null))),
+           ("crossing", J.arr (rays.map (fun r => match planeCrossing inv r with
+              | some h => J.obj [("t", jr h.t), ("d2", jo (distSqOutline h.px h.py poly)),
+                                 ("denom", jr (polyNormalZ poly * (inv.rot r.d).z))]
+              | none => J.null)))]
+
 def withModel (req : J) (f : Model → J) : J :=
   match req.get? "model" with
   | none => J.obj [("error", J.str "no model")]
@@ -155,6 +214,8 @@ def handle (line : String) : String :=
       | some (J.str "purge") => withModel req opPurge
       | some (J.str "indicators") => withModel req (opIndicators req)
       | some (J.str "classify") => opClassify req
+      | some (J.str "bvh") => opBvh req
+      | some (J.str "raypoly") => opRayPoly req
       | some (J.str "noop") => J.obj []
       | some (J.str "load") => withModel req (fun _ => J.obj [("ok", J.bool true)])
       | _ => J.obj [("error", J.str "unknown op")]
